@@ -419,9 +419,10 @@ Next == Step /\ proj' = Proj(st', ipfs', ops', table', pinQ', unpinQ', wk')
 
 Spec == Init /\ [][Next]_vars
 
+PP == proj' = Proj(st', ipfs', ops', table', pinQ', unpinQ', wk')
 Fairness == \A w \in Workers :
-    /\ WF_vars(Dequeue(w)) /\ WF_vars(Start(w)) /\ WF_vars(Abort(w)) /\ WF_vars(HandleErr(w))
-    /\ WF_vars(Finish(w)) /\ WF_vars(Clean(w)) /\ WF_vars(Apply(w)) /\ WF_vars(ReturnOk(w))
+    /\ WF_vars(Dequeue(w) /\ PP) /\ WF_vars(Start(w) /\ PP) /\ WF_vars(Abort(w) /\ PP) /\ WF_vars(HandleErr(w) /\ PP)
+    /\ WF_vars(Finish(w) /\ PP) /\ WF_vars(Clean(w) /\ PP) /\ WF_vars(Apply(w) /\ PP) /\ WF_vars(ReturnOk(w) /\ PP)
 
 (***************************************************************************)
 (* Properties                                                              *)
@@ -500,6 +501,10 @@ CoverNew ==
          IF t \in TLCGet(7) THEN TRUE ELSE TLCSet(7, TLCGet(7) \cup {t}) /\ FALSE
 CoverInit == TLCSet(7, {})
 
-\* liveness: once the environment stops, the tracker quiesces
-Settles == <>[](Quiescent \/ ENABLED Env)
+\* liveness: under fair scheduling of the workers and a daemon that answers every call,
+\* the tracker always comes to rest again: whenever the environment has used up its
+\* instructions, eventually nothing is queued, no worker is busy and no call is in flight.
+LiveSpec == Spec /\ Fairness
+Settles == []<>(Quiescent \/ ninstr < MaxInstr)
+EventuallyQuiet == (ninstr = MaxInstr) ~> Quiescent
 =============================================================================
